@@ -25,10 +25,14 @@ def main():
     out = os.path.join(VERIF, "seeded", name)
     os.makedirs(out, exist_ok=True)
     seed = os.path.join(wt, "seed")
+    old = json.load(open(os.path.join(out, "meta.json"))) if os.path.exists(os.path.join(out, "meta.json")) else {}
     for f in ("patch.diff", "demo.py", "meta.json"):
         if os.path.exists(os.path.join(seed, f)):
             shutil.copyfile(os.path.join(seed, f), os.path.join(out, f))
     meta = json.load(open(os.path.join(out, "meta.json"))) if os.path.exists(os.path.join(out, "meta.json")) else {}
+    for k in ("runs", "note"):
+        if k in old:
+            meta[k] = old[k]
     # demo with the change (worktree as left by the agent), then without (reverse patch; never `git stash`: the stash is shared between worktrees)
     env1 = dict(os.environ, OMP_NUM_THREADS="1", OPENBLAS_NUM_THREADS="1", MKL_NUM_THREADS="1")
     patch = os.path.join(out, "patch.diff")
